@@ -321,6 +321,25 @@ def extra_predicate_rule(ctx, rid, f, with_reaper):
         d_in = single_def(ld, inner.id) if isinstance(inner, ast.Name) else None
         inner_x = d_in[1] if d_in else inner
         # names feeding the loaded path, following single local definitions
+        def _inline_helpers(e0):
+            """calls of one-return module-level helpers replaced by their returned expression (actuals substituted)"""
+            from ..util import callee_func
+            class Inl(ast.NodeTransformer):
+                def visit_Call(self_, node):
+                    self_.generic_visit(node)
+                    cf = callee_func(ctx, ld, node)
+                    if cf is not None and cf.cls is None and cf.module is ld.module and not node.keywords:
+                        rets = [r for r in walk_shallow(cf.node) if isinstance(r, ast.Return) and r.value is not None]
+                        body_ = [b for b in cf.node.body if not (isinstance(b, ast.Expr) and isinstance(b.value, ast.Constant))]
+                        if len(rets) == 1 and len(node.args) == len(cf.positional) and len(body_) == 1 and body_[0] is rets[0]:
+                            m = dict(zip(cf.positional, node.args))
+                            class Sub(ast.NodeTransformer):
+                                def visit_Name(s2, nn):
+                                    return m.get(nn.id, nn)
+                            return Sub().visit(ast.parse(ast.unparse(rets[0].value), mode="eval").body)
+                    return node
+            return Inl().visit(ast.parse(ast.unparse(e0), mode="eval").body)
+        inner_x = _inline_helpers(inner_x)
         reach, todo, texts = set(), [inner_x], [norm(inner_x)]
         while todo:
             ex = todo.pop()
@@ -330,13 +349,21 @@ def extra_predicate_rule(ctx, rid, f, with_reaper):
                 reach.add(nmx)
                 dd = single_def(ld, nmx)
                 if dd:
-                    todo.append(dd[1])
-                    texts.append(norm(dd[1]))
+                    dv_ = _inline_helpers(dd[1])
+                    todo.append(dv_)
+                    texts.append(norm(dv_))
         path_txt = " ".join(texts)
         if "read_from_disk(" in path_txt and "'batches'" in path_txt and "BTCH_NM.format(" in path_txt:
             def is_id(nmx):
                 dd = single_def(ld, nmx)
-                return bool(dd) and "RSLT_NM.format(" in norm(dd[1]) and "re." in norm(dd[1])
+                if not dd:
+                    return False
+                txt = norm(dd[1])
+                for nm2 in names_in(dd[1]):          # a pattern pre-compiled at module level
+                    cst = ld.module.consts.get(nm2)
+                    if cst is not None:
+                        txt += " " + norm(cst)
+                return "RSLT_NM.format(" in txt and "re." in txt
             fmt_args = []
             for t in texts:
                 for x in ast.walk(ast.parse(t, mode="eval")):
